@@ -499,6 +499,9 @@ def ini_file_ok(case):
 
 
 _main_cache = {}
+PLUGIN_VCMD = None          # set by main_classes(): what `[COMMAND] vcmd = optlib:PLUGIN_VCMD` loads
+PLUGIN_BACKEND = None
+BACKEND_CLASS = {'dbm': 'DbmDB', 'json': 'JsonDB', 'sqlite3': 'SqliteDB', 'vmem': 'VBackend'}
 
 
 def main_classes():
@@ -524,7 +527,18 @@ def main_classes():
             return DoitCmdBase.execute(self, params, args)
 
         def _execute(self, pos_args):
+            box['backend_seen'] = type(self.dep_manager.backend).__name__
             return 0
+
+    from doit.dependency import JsonDB
+
+    class VBackend(JsonDB):
+        """a DB backend that exists only as a plugin (`[BACKEND] vmem = optlib:PLUGIN_BACKEND`)"""
+        desc = 'verification probe backend'
+
+    global PLUGIN_VCMD, PLUGIN_BACKEND
+    PLUGIN_VCMD = VCmd
+    PLUGIN_BACKEND = VBackend
 
     class Main(DoitMain):
         def get_cmds(self):
@@ -624,8 +638,15 @@ def impl_main(case, workdir):
         for f in os.listdir(workdir):
             os.remove(os.path.join(workdir, f))
         kw = {'config_filenames': ()}
+        plug = bool(case.get('plugins'))
+        if plug:
+            # the probe command and a DB backend are registered as PLUGINS, in the same config source as the options
+            from doit.doit_cmd import DoitMain as Main      # noqa: F811  (no get_cmds override)
+        box.pop('backend_seen', None)
         if case['ini_mode'] == 'file':
             with open('doit.cfg', 'w') as f:
+                if plug:
+                    f.write('[COMMAND]\nvcmd = optlib:PLUGIN_VCMD\n[BACKEND]\nvmem = optlib:PLUGIN_BACKEND\n')
                 if case['glob']:
                     f.write('[GLOBAL]\n' + ''.join('%s = %s\n' % (k, c['raw']) for k, c in case['glob']))
                 f.write('[vcmd]\n' + ''.join('%s = %s\n' % (k, c['raw']) for k, c in case['ini']))
@@ -640,12 +661,18 @@ def impl_main(case, workdir):
                 return json.dumps(v)
             with open('pyproject.toml', 'w') as f:
                 f.write('[tool.doit]\n' + ''.join('%s = %s\n' % (k, tv(c)) for k, c in case['glob']))
+                if plug:
+                    f.write('[tool.doit.plugins.command]\nvcmd = "optlib:PLUGIN_VCMD"\n'
+                            '[tool.doit.plugins.backend]\nvmem = "optlib:PLUGIN_BACKEND"\n')
                 f.write('[tool.doit.commands.vcmd]\n' + ''.join('%s = %s\n' % (k, tv(c)) for k, c in case['ini']))
             kw = {'config_filenames': ('pyproject.toml',)}
         else:
             extra = {'vcmd': cfg_py(case['ini'])}
             if case['glob'] or case['ini_mode'] == 'mixed':
                 extra['GLOBAL'] = cfg_py(case['glob'])
+            if plug:
+                extra['COMMAND'] = {'vcmd': 'optlib:PLUGIN_VCMD'}
+                extra['BACKEND'] = {'vmem': 'optlib:PLUGIN_BACKEND'}
             kw['extra_config'] = extra
         extra_before = None
         if case['ini_mode'] == 'mixed':
@@ -664,6 +691,10 @@ def impl_main(case, workdir):
                     pass
                 del box['seen'][:]
                 box['setup'] = []
+                box.pop('backend_seen', None)
+                for f in os.listdir('.'):
+                    if f.startswith('.doit.db'):      # the state file is not this property's subject (another backend may follow)
+                        os.remove(f)
                 err.seek(0)
                 err.truncate()
                 if case['ini_mode'] == 'mixed':
@@ -687,6 +718,8 @@ def impl_main(case, workdir):
     if code == 0 and box['seen']:
         params, args = box['seen'][0]
         out = {'res': params_obs(names, params, args), 'exit': code}
+        if plug:
+            out['backend_seen'] = box.get('backend_seen')
         if mutated:
             out['extra_config_mutated'] = mutated
         if lspec is not None and box['setup']:
